@@ -17,7 +17,7 @@
 (* version) are explored by TLC over EVERY decision sequence, loops         *)
 (* unrolled up to MaxIter times per condition and MaxRun emissions.        *)
 (***************************************************************************)
-EXTENDS Integers, Sequences, FiniteSets, TLC, Json, IOUtils
+EXTENDS Integers, Sequences, FiniteSets, TLC, Json, IOUtils, Lifting
 
 CONSTANTS MaxIter, MaxRun
 
@@ -26,13 +26,15 @@ Rec == ndJsonDeserialize(IOEnv.TRACE)
 VARIABLES l,       \* record index
           stack,   \* source executor: continuation stack of frames [f, n]
           pos,     \* walker on g:   [b, i] next statement to look at (b = 0: stopped)
+          mg,      \* the graph the Impl model (Lifting.tla) builds for the record's tree (computed once per record)
+          mpos,    \* walker on mg
           spos,    \* walker on ssa: [b, i, from] (from = block we came from, for phi arguments)
           cur,     \* SSA walker: variable key -> current version (-1: not yet defined on this path)
           iters,   \* condition id -> number of times decided TRUE on this run
           run,     \* number of emissions so far
           done,    \* the source run has ended (first return reached)
           bad      \* "" or the name of the violated dynamic clause
-vars == <<l, stack, pos, spos, cur, iters, run, done, bad>>
+vars == <<l, stack, pos, mg, mpos, spos, cur, iters, run, done, bad>>
 
 SeqSet(q) == {q[j] : j \in 1..Len(q)}
 R == Rec[l]
@@ -53,7 +55,7 @@ ReachWithout(g, d) == LET RECURSIVE Go(_)
                       IN IF d = 1 THEN {} ELSE Go({1})
 Dominates(g, d, x) == d = x \/ x \notin ReachWithout(g, d)
 LastStmt(b) == b.stmts[Len(b.stmts)]
-WellFormed(g) ==
+WellFormedCore(g) ==
   LET B == 1..NB(g) IN
   IF g.blocks[1].preds # <<>> THEN "entry block has a predecessor"
   ELSE IF Reach(g) # B THEN "a block is unreachable from the entry"
@@ -69,7 +71,10 @@ WellFormed(g) ==
              (IF Len(g.blocks[b].stmts) > 0 /\ LastStmt(g.blocks[b]).k = "if" THEN 2 ELSE 1)
        THEN "too many successors"
   ELSE IF \E a \in B, b \in B : a > b /\ Dominates(g, a, b) THEN "a block dominates a block with a smaller index"
-  ELSE IF \E b \in B : SeqSet(g.blocks[b].dom) # {d \in B : Dominates(g, d, b)} THEN "recorded dominators differ from path-based dominance"
+  ELSE "ok"
+WellFormed(g) ==
+  IF WellFormedCore(g) # "ok" THEN WellFormedCore(g)
+  ELSE IF \E b \in 1..NB(g) : SeqSet(g.blocks[b].dom) # {d \in 1..NB(g) : Dominates(g, d, b)} THEN "recorded dominators differ from path-based dominance"
   ELSE "ok"
 
 \* loop depth: every statement of the source tree has a nesting depth (number of enclosing loop bodies; a loop's
@@ -117,6 +122,27 @@ StaticVerdict == IF R.kind = "skip" THEN "ok"
                  ELSE IF WellFormed(S) # "ok" THEN WellFormed(S)
                  ELSE IF ~DepthOK(Tree, G) \/ ~DepthOK(Tree, S) THEN "recorded loop depth differs from the nesting of the source"
                  ELSE SsaStatic(S)
+
+(* ---------------- the Impl model of lifting (Lifting.tla) --------------- *)
+\* (L1) the model's own graph must satisfy the structural clauses; (L2') the exported graph equals the model's graph:
+\* same number of blocks, and per block the same predecessors, successors, loop depth and the same sequence of tagged
+\* statements with the same branch targets
+Tagged(b) == SelectSeq(b.stmts, LAMBDA st : st.k = "if" \/ (st.tag > 0 /\ ~st.phi))
+SameShape(m, g) ==
+  /\ NB(m) = NB(g)
+  /\ \A b \in 1..NB(m) :
+        /\ SeqSet(m.blocks[b].preds) = SeqSet(g.blocks[b].preds)
+        /\ SeqSet(m.blocks[b].succs) = SeqSet(g.blocks[b].succs)
+        /\ m.blocks[b].depth = g.blocks[b].depth
+        /\ LET a == Tagged(m.blocks[b])
+               c == Tagged(g.blocks[b]) IN
+           /\ Len(a) = Len(c)
+           /\ \A i \in 1..Len(a) : a[i].tag = c[i].tag /\ (a[i].k = "if") = (c[i].k = "if") /\ (a[i].k = "if" => (a[i].t = c[i].t /\ a[i].f = c[i].f))
+ModelVerdict == IF R.kind = "skip" THEN "ok"
+                ELSE IF WellFormedCore(mg) # "ok" THEN "MODEL: " \o WellFormedCore(mg)
+                ELSE IF ~DepthOK(Tree, mg) THEN "MODEL: loop depth differs from the nesting of the source"
+                ELSE "ok"
+DriftVerdict == IF R.kind = "skip" \/ SameShape(mg, G) THEN "ok" ELSE "DRIFT: the exported graph is not the graph Lifting.tla builds"
 
 (* --------------------- C13: source executor (Ref) ---------------------- *)
 \* frames: [f |-> "node", n] | [f |-> "forloop", n] | [f |-> "forstep", n]
@@ -185,12 +211,16 @@ InitCur == [v \in SeqSet(S.vars) |-> IF v \in SeqSet(S.params) THEN 0 ELSE -1]
 Load(k) == /\ l' = k
            /\ stack' = IF k <= Len(Rec) THEN <<[f |-> "node", n |-> 1]>> ELSE <<>>
            /\ pos' = [b |-> 1, i |-> 1, from |-> 0]
+           /\ mpos' = [b |-> 1, i |-> 1, from |-> 0]
+           /\ mg' = IF k <= Len(Rec) /\ Rec[k].kind # "skip" THEN Lift(Rec[k].tree) ELSE [blocks |-> <<>>]
            /\ spos' = [b |-> 1, i |-> 1, from |-> 0]
            /\ cur' = IF k <= Len(Rec) /\ Rec[k].kind # "skip" THEN [v \in SeqSet(Rec[k].ssa.vars) |-> IF v \in SeqSet(Rec[k].ssa.params) THEN 0 ELSE -1] ELSE <<>>
            /\ iters' = <<>> /\ run' = 0 /\ done' = FALSE /\ bad' = ""
 Init == /\ l = 1
         /\ stack = IF Len(Rec) >= 1 THEN <<[f |-> "node", n |-> 1]>> ELSE <<>>
         /\ pos = [b |-> 1, i |-> 1, from |-> 0] /\ spos = [b |-> 1, i |-> 1, from |-> 0]
+        /\ mpos = [b |-> 1, i |-> 1, from |-> 0]
+        /\ mg = IF Len(Rec) >= 1 /\ Rec[1].kind # "skip" THEN Lift(Rec[1].tree) ELSE [blocks |-> <<>>]
         /\ cur = IF Len(Rec) >= 1 /\ Rec[1].kind # "skip" THEN [v \in SeqSet(Rec[1].ssa.vars) |-> IF v \in SeqSet(Rec[1].ssa.params) THEN 0 ELSE -1] ELSE <<>>
         /\ iters = <<>> /\ run = 0 /\ done = FALSE /\ bad = ""
 
@@ -200,14 +230,16 @@ Step(d) ==
   /\ LET s == SrcStep(stack, d)
          tag == s[1]
          w == Walk(G, pos, d, 200)
+         wm == Walk(mg, mpos, d, 200)
          ws == Walk(S, spos, d, 200)
          sc == SsaScan(spos, d, cur, 200, TRUE) IN
      /\ (s[4] /\ d) => IterOf(tag) < MaxIter          \* unrolling bound: a condition is decided TRUE at most MaxIter times
      /\ stack' = s[2] /\ done' = (s[3] \/ tag = 0)
-     /\ pos' = w[2] /\ spos' = ws[2] /\ cur' = sc[1]
+     /\ pos' = w[2] /\ spos' = ws[2] /\ cur' = sc[1] /\ mpos' = wm[2] /\ UNCHANGED mg
      /\ iters' = IF s[4] /\ d THEN (IF tag \in DOMAIN iters THEN [iters EXCEPT ![tag] = @ + 1] ELSE iters @@ (tag :> 1)) ELSE iters
      /\ run' = run + 1
-     /\ bad' = IF tag # 0 /\ w[1] # tag THEN "the graph walk does not meet the statement the source executes"
+     /\ bad' = IF tag # 0 /\ wm[1] # tag THEN "MODEL: the walk of the model's graph does not meet the statement the source executes"
+               ELSE IF tag # 0 /\ w[1] # tag THEN "the graph walk does not meet the statement the source executes"
                ELSE IF tag # 0 /\ ws[1] # tag THEN "the SSA graph walk does not meet the statement the source executes"
                ELSE IF tag # 0 THEN sc[2] ELSE ""
      /\ UNCHANGED l
@@ -216,6 +248,8 @@ Next == (\E d \in BOOLEAN : Step(d)) \/ NextRecord
 Spec == Init /\ [][Next]_vars
 
 Static == (l <= Len(Rec) /\ run = 0) => (StaticVerdict = "ok" \/ PrintT(<<"REJECT", ToJson([idx |-> l, why |-> StaticVerdict])>>))
+Model == (l <= Len(Rec) /\ run = 0) => (ModelVerdict = "ok" \/ PrintT(<<"REJECT", ToJson([idx |-> l, why |-> ModelVerdict])>>))
+Drift == (l <= Len(Rec) /\ run = 0) => (DriftVerdict = "ok" \/ PrintT(<<"REJECT", ToJson([idx |-> l, why |-> DriftVerdict])>>))
 Dynamic == (bad # "") => PrintT(<<"REJECT", ToJson([idx |-> l, why |-> bad])>>)
 Consumed == (l = Len(Rec) + 1) => PrintT(<<"CONSUMED", ToJson([n |-> Len(Rec)])>>)
 =============================================================================
